@@ -60,6 +60,15 @@ func TestC01(t *testing.T) {
 			Owned:  core.Own(core.CatComponents, core.CatInvIndex, core.CatInvTable, core.CatPanicMove, core.CatObserve, core.CatEventValues),
 			Verify: core.FullVerify,
 		},
+		Once: func(t *testing.T, st *core.Stats) {
+			// beyond the generated sizes: 16-bit boundaries of entity ids and table rows
+			for _, n := range []int{65537, 70001} {
+				if msg := bigWorldProbe(n, true); msg != "" {
+					probeFail(t, "C01", "bigworld", msg)
+				}
+				st.Count("big_world_probes", 1)
+			}
+		},
 		Mix:      mix,
 		MaxPlain: 6, MaxRel: 3,
 		Rule:    "histories of all mutating ID-based calls (create/remove/add/remove/exchange/assign/builders/relations/batch through plain and registered filters, Reset, value writes through Set, Get pointer and Query.Get) over a generated universe (1-6 plain + 0-3 relation types incl. zero-sized/padded ones, IDs placed anywhere in the ID range, capacity increment 1..128); after EVERY op every alive entity's Has/Mask/Ids/Get/GetUnchecked and value bytes are compared with the model, plus a full Query(All()) pass and the structural invariants (rows <-> index, zeroed free rows); non-trivial = a non-zero value was written to an entity that is still alive when a later structural op runs (then read back); distinct = distinct op sequences",
